@@ -9,6 +9,7 @@
 //	R4 tail-call elimination             def f: body;  ->  def f: (body | .);
 //	R5 constant-branch simplification    if c then a else b end -> if (c|.) then (a|.) else (b|.) end
 //	R6 signed-number folding             -1 -> -(1|.)
+//	R8 expbegin/expend removal in binds   . as P | body -> first(.) as P | body ;  src as P -> (src | .) as P
 //	R7 constant-path assignment          .a.b = x -> (.a.b|.) = x      (error CLASS may differ: not compared)
 //
 // Implementation-only oracle: the observation (first 50 outputs + ending) of every variant equals the
@@ -64,6 +65,15 @@ func (w *rewriter) query(q *gojq.Query) *gojq.Query {
 		return n
 	}
 	n.Left, n.Right = w.query(q.Left), w.query(q.Right)
+	if q.Op == gojq.OpPipe && len(q.Patterns) > 0 && (w.rule == 8 || w.rule == 0) {
+		if q.Left.Term != nil && q.Left.Term.Type == gojq.TermTypeIdentity && len(q.Left.Term.SuffixList) == 0 && len(q.Left.FuncDefs) == 0 {
+			// `. as P`: (. | .) emits no code either; first(.) does and is `.`
+			n.Left = termQuery(&gojq.Term{Type: gojq.TermTypeFunc, Func: &gojq.Func{Name: "first", Args: []*gojq.Query{idQuery()}}})
+		} else {
+			n.Left = parenPipeId(n.Left)
+		}
+		w.count++
+	}
 	switch q.Op {
 	case gojq.OpAdd, gojq.OpSub, gojq.OpMul, gojq.OpDiv, gojq.OpMod, gojq.OpEq, gojq.OpNe, gojq.OpGt, gojq.OpLt, gojq.OpGe, gojq.OpLe:
 		if w.on(3) {
@@ -209,7 +219,7 @@ func (w *rewriter) term(t *gojq.Term) *gojq.Term {
 // variants returns the rewritten program texts by rule (0 = all of R1..R6 together)
 func variants(q *gojq.Query) map[int]string {
 	out := map[int]string{}
-	for _, r := range []int{1, 2, 3, 4, 5, 6, 7, 0} {
+	for _, r := range []int{1, 2, 3, 4, 5, 6, 7, 8, 0} {
 		w := &rewriter{rule: r}
 		nq := w.query(q)
 		if w.count == 0 {
@@ -327,6 +337,14 @@ func streamC04(c *Ctx) {
 	progs := c04Programs(r.Fork(), c.N)
 	// branch-join shapes x consumers (peephole / fusion hazards: data below the stack top)
 	jp, ji := joinBlock()
+	pbp, pbi := pathBindBlock()
+	pbSet := map[string]bool{}
+	for i, src := range pbp {
+		if c.Tier != "quick" || i%6 == int(c.Seed%6) {
+			progs = append(progs, src)
+			pbSet[src] = true
+		}
+	}
 	joinSet := map[string]bool{}
 	for i, src := range jp {
 		if c.Tier != "quick" || i%2 == int(c.Seed%2) {
@@ -356,6 +374,9 @@ func streamC04(c *Ctx) {
 			continue
 		}
 		ins := []any{ext[r.Intn(len(ext))], ext[r.Intn(len(ext))], small12()[r.Intn(12)]}
+		if pbSet[src] {
+			ins = []any{pbi[r.Intn(len(pbi))], pbi[r.Intn(len(pbi))], pbi[r.Intn(5)]}
+		}
 		if joinSet[src] {
 			ins = []any{ji[r.Intn(2)], ji[2+r.Intn(len(ji)-2)]} // one boolean, one other
 		}
